@@ -1,0 +1,54 @@
+//go:build verif
+
+package vendingpb
+
+// Machine-checked contracts for this package (comment-only; excluded from normal builds).
+
+//@ property C15
+//@ func capPageSize(pageSize) (r)
+//@   ensures pageSize == 0 ==> r == 50
+//@   ensures pageSize > 1000 ==> r == 1000
+//@   ensures pageSize != 0 && pageSize <= 1000 ==> r == pageSize
+//@   modifies nothing
+//@
+//@ pure func sortedListConsumables(ms) = forall i int, j int :: 0 <= i && i < j && j < len(ms) ==> ms[i].Name < ms[j].Name
+//@ pure func allListConsumables(ms) = forall i int :: 0 <= i && i < len(ms) ==> ms[i] != nil
+//@
+//@ // the listing the pages are cut from: sorted by the paging key (Collection.List is sorted by id and every stored
+//@ // item carries its collection id; assumed here, see C01)
+//@ func (*Model).ListConsumables(opts) (res)
+//@   trusted
+//@   ensures allListConsumables(res) && sortedListConsumables(res)
+//@   modifies nothing
+//@
+//@ func (*ModelServer).ListConsumables(ctx, request) (resp, err)
+//@   requires recv != nil && recv.model != nil && request != nil
+//@   let all := lastcall(ListConsumables)
+//@   ensures [negative] request.PageSize < 0 ==> err != nil
+//@   ensures [total] err == nil && len(all) <= 2147483647 ==> resp.TotalSize == len(all)
+//@   ensures [page] err == nil ==> 0 <= nextIndex && nextIndex <= upperBound && upperBound <= len(all) && resp.Consumables == all[nextIndex:upperBound]
+//@   ensures [start] err == nil ==> (lastKey == "" ==> nextIndex == 0) && (forall i int :: 0 <= i && i < nextIndex ==> all[i].Name <= lastKey) && (forall i int :: nextIndex <= i && i < len(all) ==> lastKey == "" || all[i].Name > lastKey)
+//@   ensures [size] err == nil ==> 1 <= pageSize && pageSize <= 1000 && (request.PageSize == 0 ==> pageSize == 50) && upperBound - nextIndex <= pageSize && (upperBound == len(all) || upperBound - nextIndex == pageSize)
+//@   ensures [last-page] err == nil && nextIndex + pageSize > len(all) ==> resp.NextPageToken == ""
+//@   replay VendingListConsumables(request.PageSize)
+//@
+//@ pure func sortedListInventory(ms) = forall i int, j int :: 0 <= i && i < j && j < len(ms) ==> ms[i].Consumable < ms[j].Consumable
+//@ pure func allListInventory(ms) = forall i int :: 0 <= i && i < len(ms) ==> ms[i] != nil
+//@
+//@ // the listing the pages are cut from: sorted by the paging key (Collection.List is sorted by id and every stored
+//@ // item carries its collection id; assumed here, see C01)
+//@ func (*Model).ListInventory(opts) (res)
+//@   trusted
+//@   ensures allListInventory(res) && sortedListInventory(res)
+//@   modifies nothing
+//@
+//@ func (*ModelServer).ListInventory(ctx, request) (resp, err)
+//@   requires recv != nil && recv.model != nil && request != nil
+//@   let all := lastcall(ListInventory)
+//@   ensures [negative] request.PageSize < 0 ==> err != nil
+//@   ensures [total] err == nil && len(all) <= 2147483647 ==> resp.TotalSize == len(all)
+//@   ensures [page] err == nil ==> 0 <= nextIndex && nextIndex <= upperBound && upperBound <= len(all) && resp.Inventory == all[nextIndex:upperBound]
+//@   ensures [start] err == nil ==> (lastKey == "" ==> nextIndex == 0) && (forall i int :: 0 <= i && i < nextIndex ==> all[i].Consumable <= lastKey) && (forall i int :: nextIndex <= i && i < len(all) ==> lastKey == "" || all[i].Consumable > lastKey)
+//@   ensures [size] err == nil ==> 1 <= pageSize && pageSize <= 1000 && (request.PageSize == 0 ==> pageSize == 50) && upperBound - nextIndex <= pageSize && (upperBound == len(all) || upperBound - nextIndex == pageSize)
+//@   ensures [last-page] err == nil && nextIndex + pageSize > len(all) ==> resp.NextPageToken == ""
+//@   replay VendingListInventory(request.PageSize)
